@@ -111,6 +111,17 @@ def _get_enforcer(namespace):
     return enforcer
 
 
+def _format_rule_line(name, check_str):
+    """Format '"name": "check_str"' so that it reads back as written.
+
+    Both parts are emitted as JSON values, which are valid YAML as well: a
+    string containing quotes or backslashes is escaped and a list-of-lists
+    rule stays a list instead of being interpolated as text.
+    """
+    return '{}: {}'.format(jsonutils.dumps(name, ensure_ascii=False),
+                           jsonutils.dumps(check_str, ensure_ascii=False))
+
+
 def _format_help_text(description):
     """Format a comment for a policy based on the description provided.
 
@@ -173,9 +184,7 @@ def _format_rule_default_yaml(default, include_help=True, comment_rule=True,
                                  text.
     :returns: A string containing a yaml representation of the RuleDefault
     """  # noqa: E501
-    text = ('"%(name)s": "%(check_str)s"\n' %
-            {'name': default.name,
-             'check_str': default.check_str})
+    text = _format_rule_line(default.name, default.check_str) + '\n'
 
     if include_help:
         op = ""
@@ -259,9 +268,7 @@ def _format_rule_default_json(default):
     :param default: A policy.RuleDefault or policy.DocumentedRuleDefault object
     :returns: A string containing a json representation of the RuleDefault
     """  # noqa: E501
-    return ('"%(name)s": "%(check_str)s"' %
-            {'name': default.name,
-             'check_str': default.check_str})
+    return _format_rule_line(default.name, default.check_str)
 
 
 def _sort_and_format_by_section(policies, output_format='yaml',
@@ -509,9 +516,7 @@ def _convert_policy_json_to_yaml(namespace, policy_file, output_file=None):
     if file_policies:
         yaml_format_rules.append(extra_rules_text)
     for file_rule, check_str in file_policies.items():
-        rule_text = ('"%(name)s": "%(check_str)s"\n' %
-                     {'name': file_rule,
-                      'check_str': check_str})
+        rule_text = _format_rule_line(file_rule, check_str) + '\n'
         yaml_format_rules.append(rule_text)
 
     if output_file:
